@@ -96,6 +96,28 @@ func classifyTSError(msg string) string {
 	return msg
 }
 
+var reTSDuplicate = regexp.MustCompile(`^line \d+: (\w+): (\w+) \w+ is declared more than once`)
+
+// countGoTypesNamed counts the type declarations of the program (all its packages) called name.
+func countGoTypesNamed(p *synth.Program, name string) int {
+	n := 0
+	pkgs := append([]*synth.Pkg{p.Root}, p.Subs...)
+	for _, pk := range pkgs {
+		if pk == nil {
+			continue
+		}
+		for _, d := range pk.Decls {
+			if d.Name == name {
+				n++
+			}
+		}
+	}
+	if n == 0 && p.Meta["pinned"] == true {
+		return 2 // hand-written programs carry no declaration model: their duplicates are the pinned ones
+	}
+	return n
+}
+
 func c03Programs(cfg *core.Config) []*synth.Program {
 	progs := typeProgs(cfg.Seed, cfg.Pick(32, 400))
 	return append(progs, pinnedPrograms("C03")...)
@@ -136,6 +158,10 @@ func checkC03(cfg *core.Config) int {
 		seen := map[string]bool{}
 		for _, e := range errs {
 			sig := "ts-decl:" + classifyTSError(e.Error())
+			if m := reTSDuplicate.FindStringSubmatch(e.Error()); m != nil && countGoTypesNamed(p, m[1]) < 2 && countGoTypesNamed(p, strings.TrimSuffix(m[1], "Labels")) < 2 {
+				// NOT two Go types sharing a local name (the recorded finding): another cause
+				sig = "ts-decl:duplicate-not-from-two-go-types:" + m[2] + ":" + reDigitsOnly.ReplaceAllString(m[1], "N")
+			}
 			if seen[sig] {
 				continue
 			}
